@@ -8,7 +8,7 @@
    Partial: cfb's parser (bytes -> container), hangs and memory exhaustion are outside the model; they are covered by the
    byte-level damage run and the driver's time / address-space limits only.
    Statements only; every proof is `exact <lemma>` from theories/. *)
-From MsiModel Require Import Base Sexp Value Expr Category Column CodePage Pool Table Container StreamName StreamNameProofs Propset Summary Query Package PoolProofs TableProofs SelectTotal StreamProofs OpenTotal.
+From MsiModel Require Import Base Sexp Value Expr Category Column CodePage Pool Table Container StreamName StreamNameProofs Propset Summary Query Package PoolProofs TableProofs SelectTotal StreamProofs OpenTotal Ffi.
 From MsiGen Require Import GenConsts.
 Open Scope N_scope.
 
@@ -84,6 +84,16 @@ Theorem C09_update_total :
          load_rows c t = Ok rows -> room p (nlen rows * nlen ups) -> exec_update prof c p ts tn ups cond <> Panic.
 Proof. exact update_total_any. Qed.
 
+(* the FFI get_table no longer calls expect() on the select result (fix 0688157) *)
+Theorem C09_ffi_flag :
+  FFI_GET_TABLE_EXPECTS = false.
+Proof. exact ffi_expect_removed. Qed.
+
+(* no panic can cross the C boundary of get_table, whatever the file holds *)
+Theorem C09_ffi_total :
+  forall (prof : profile) (c : container) (name : str), bytes_ok c -> ffi_get_table prof c name <> Panic.
+Proof. exact ffi_get_table_total. Qed.
+
 Print Assumptions C09_failure_flags.
 Print Assumptions C09_read_pool_total.
 Print Assumptions C09_read_rows_total.
@@ -97,3 +107,5 @@ Print Assumptions C09_delete_total.
 Print Assumptions C09_pkg_delete_total.
 Print Assumptions C09_insert_total.
 Print Assumptions C09_update_total.
+Print Assumptions C09_ffi_flag.
+Print Assumptions C09_ffi_total.
